@@ -37,7 +37,10 @@ var SplitIndependentIDs = []string{"K-live/v0",
 	"K-read-loop/v0", "K-read-loop/v1", "K-read-loop/v2", "K-read-loop/v3", "K-read-loop/v4",
 	"K-write-loop/v0", "K-write-loop/v1",
 	"K-nested-coro/v0", "K-nested-coro/v1", "K-nested-coro/v2", "K-nested-coro/v3", "K-nested-coro/v4", "K-nested-coro/v5",
-	"K-peek-skip/v0"}
+	"K-peek-skip/v0",
+	"K-loop-carry/v0", "K-loop-carry/v1", "K-loop-carry/v2", "K-loop-carry/v3", "K-loop-carry/v4", "K-loop-carry/v5",
+	// several seeded inputs for the two shapes taken from std/png
+	"K-loop-carry/v4", "K-loop-carry/v5", "K-loop-carry/v4", "K-loop-carry/v5"}
 
 type liveGen struct {
 	g       *genctx
@@ -353,4 +356,86 @@ func Final(t []Rec) (rec Rec, completed bool) {
 		return Rec{}, false
 	}
 	return t[len(t)-1], false
+}
+
+// K-loop-carry: a local written on only some iterations (in a branch that ends
+// with `continue`) and read at the top of a later iteration, after the read
+// that can suspend; another branch further down leaves by `break`. Whether the
+// local is saved across the suspension is only found by the liveness analysis'
+// second round over the loop body.
+func init() {
+	allFamilies = append(allFamilies, family{"K-loop-carry", 6, famLoopCarry})
+}
+
+func famLoopCarry(g *genctx, v int) *scen {
+	m, acc := g.n("carry"), g.n("cacc")
+	if v >= 4 {
+		// the shape of png.decoder.do_tell_me_more: a local assigned only when a
+		// staging area is empty, an inner drain loop that yields and continues
+		// the OUTER loop when the destination is full, and a test of the local
+		// after the drain loop that decides about the break
+		ri, wi := g.n("ri"), g.n("wi")
+		after := "        if (v & 0x80) <> 0 {\n            break.l0\n        }\n"
+		if v == 5 {
+			after = "        if (v & 0x80) <> 0 {\n            this." + acc + " ~mod+= v\n            break.l0\n        } else if (v & 0x40) <> 0 {\n            continue.l0\n        }\n        this." + acc + " ~mod+= 3\n"
+		}
+		body := "    while.l0 true {\n        if this." + ri + " == this." + wi + " {\n            v = args.src.read_u8_as_u32?()\n            this." + ri + " = 0\n            this." + wi + " = (v & 7) + 1\n        }\n" +
+			"        while this." + ri + " < this." + wi + " {\n            if args.dst.length() <= 0 {\n                yield? base.\"$short write\"\n                continue.l0\n            }\n            assert this." + ri + " < 8 via \"a < b: a < c; c <= b\"(c: this." + wi + ")\n            this." + ri + " += 1\n            args.dst.write_u8_fast!(a: ((v ~mod+ this." + ri + ") & 0xFF) as base.u8)\n        }\n" + after + "    }.l0\n    this." + acc + " = (this." + acc + " ~mod* 131) ~mod+ v\n"
+		s := &scen{coro: true, features: []string{"coroutine", "liveness", "loop-carried-local", "yield-continue-outer"}}
+		s.fields = []string{acc + " : base.u32", ri + " : base.u32[..= 8]", wi + " : base.u32[..= 8]"}
+		s.methods = []string{
+			fmt.Sprintf("pub func obj.%s?(src: base.io_reader, dst: base.io_writer) {\n    var v : base.u32\n%s}", m, body),
+			fmt.Sprintf("pub func obj.%s() base.u32 {\n    return this.%s\n}", g.n("getcacc"), acc),
+		}
+		s.getters = []string{g.n("getcacc")}
+		s.drive = func(r *rand.Rand) []Call {
+			n := 3 + r.Intn(8)
+			data := make([]byte, n)
+			total := 0
+			for i := range data {
+				data[i] = byte(r.Intn(64))
+				total += int(data[i]&7) + 1
+			}
+			data[n-1] |= 0x80
+			return feedCalls(r, m, data, true, true, total+r.Intn(3), nil)
+		}
+		return s
+	}
+	contFirst := "        if (c & 3) == 0 {\n            v = c ~mod+ 1\n            continue.l0\n        }\n"
+	brk := "        if (c & 7) == 7 {\n            break.l0\n        }\n"
+	var mid string
+	switch v {
+	case 0:
+		mid = contFirst + brk
+	case 1:
+		mid = brk + contFirst
+	case 2: // the write sits in an inner loop that continues the outer one
+		mid = "        while.l1 true {\n            d = args.src.read_u8_as_u32?()\n            if (d & 1) == 0 {\n                v = d ~mod+ 7\n                continue.l0\n            }\n            break.l1\n        }.l1\n" + brk
+	case 3: // two carried locals, continue / break / continue
+		mid = contFirst + brk + "        if (c & 3) == 1 {\n            u = c ~mod* 5\n            continue.l0\n        }\n"
+	}
+	body := "    while.l0 true {\n        c = args.src.read_u8_as_u32?()\n        this." + acc + " = ((this." + acc + " ~mod* 33) ~mod+ v) ~mod+ (u ~mod* 3)\n" + mid + "        w = w ~mod+ c\n    }.l0\n    this." + acc + " = (this." + acc + " ~mod* 131) ~mod+ (w ~mod+ v)\n"
+	s := &scen{coro: true, features: []string{"coroutine", "liveness", "loop-carried-local"}}
+	s.fields = []string{acc + " : base.u32"}
+	s.methods = []string{
+		fmt.Sprintf("pub func obj.%s?(src: base.io_reader) {\n    var c : base.u32\n    var d : base.u32\n    var u : base.u32\n    var v : base.u32\n    var w : base.u32\n%s}", m, body),
+		fmt.Sprintf("pub func obj.%s() base.u32 {\n    return this.%s\n}", g.n("getcacc"), acc),
+	}
+	s.getters = []string{g.n("getcacc")}
+	s.drive = func(r *rand.Rand) []Call {
+		n := 6 + r.Intn(20)
+		data := make([]byte, n)
+		for i := range data {
+			data[i] = byte(r.Intn(256))
+			if r.Intn(3) == 0 {
+				data[i] &^= 3 // takes the continue branch
+			}
+			if data[i]&7 == 7 && i < n-2 {
+				data[i]-- // keep the break for the end
+			}
+		}
+		data[n-1] |= 7
+		return feedCalls(r, m, data, true, false, 0, nil)
+	}
+	return s
 }
